@@ -1,9 +1,9 @@
 """C06 DeferredLock / DeferredSemaphore: safe, FIFO-fair, no capacity lost; run() releases exactly once."""
+import sys
 from typing import List
 
 from twisted.internet.defer import CancelledError, Deferred, DeferredLock, DeferredSemaphore
 
-from vlib import api
 from vlib.api import H, cover
 
 PROPERTY = "C06"
@@ -44,8 +44,8 @@ EXPLANATION = ("one symbolic acquire/release/cancel from an arbitrary invariant-
 
 
 def _fail(msg):
-    # plain False under the solver (post: _), a diagnostic tuple in replay
-    return False if api.MODE == "sym" else (False, msg)
+    # plain False under the solver (post: _ needs a falsy value), a diagnostic tuple in replay / vector validation
+    return False if "crosshair" in sys.modules else (False, msg)
 
 
 # ---------------------------------------------------------------- semaphore, inductive steps
